@@ -414,10 +414,13 @@ def gen_history(rng, avoid, big=False, directed=None):
     directed = "permute": poly section, in-place replacements whose element sizes are a permutation of the stored ones
                (same total size, different boundaries), preferably right after a reopen (connectivity not cached);
     directed = "parcache": fixed-size section stored as I4 with parent data; a partial read WITH parent data, then a
-               partial parent write, then an extension (the stale-cache hazard of the parent arrays)."""
+               partial parent write, then an extension (the stale-cache hazard of the parent arrays);
+    directed = "resize": poly section, connectivity not cached (right after a reopen), general / partial writes on an inner
+               range that is followed by real elements and whose total size changes (a shrink always fits the file; a
+               growth fits when an earlier shrink or a generous ElementDataSize left room): the relocate-the-tail path."""
     maxn = 12 if big else 5
     kind = rng.choice(["fixed", "fixed", "mixed", "ngon", "nface"])
-    if directed == "permute":
+    if directed in ("permute", "resize"):
         kind = rng.choice(["mixed", "ngon", "nface"])
     elif directed == "parcache":
         kind = "fixed"
@@ -436,6 +439,9 @@ def gen_history(rng, avoid, big=False, directed=None):
     how = rng.choice(["full", "full", "partial", "general4", "general8"])
     if directed == "parcache":
         how = rng.choice(["general4", "general4", "general8"])
+    if directed == "resize":
+        n0 = max(n0, 4)
+        how = rng.choice(["full", "full", "general4", "general8"])
     if directed == "permute":
         n0 = max(n0, 3)
         how = "full"           # real elements of different sizes from the start (placeholders all have one size)
@@ -521,6 +527,8 @@ def gen_history(rng, avoid, big=False, directed=None):
     script = []
     if directed == "permute":
         script = ["reopen", "perm", "read", "perm", "reopen", "perm"]
+    elif directed == "resize":
+        script = ["reopen", "resize", "read", "reopen", "resize", "resize", "read", "reopen", "resize"]
     elif directed == "parcache":
         script = ["readpar", "pdpw", "readpar", "extend", "read", "pdpw", "extend"]
     for step in script:
@@ -540,6 +548,20 @@ def gen_history(rng, avoid, big=False, directed=None):
                     feat.add("inside"); feat.add("permuted-sizes")
                     break
             reads()
+        elif step == "resize":
+            if l - f < 1:
+                continue
+            for _ in range(8):
+                s_ = rng.randint(f, l - 1); e_ = rng.randint(s_, min(l - 1, s_ + maxn - 1))
+                old = ref.sec["elems"][s_ - f:e_ - f + 1]
+                new = [gen_elem(rng, t) for _ in range(e_ - s_ + 1)]
+                if any(o is None for o in old) or sum(len(o) for o in old) != sum(len(x) for x in new):
+                    mt = rng.choice([4, 4, 8])
+                    emit(("pgw", mt, s_, e_, new) if rng.random() < 0.75 else ("ppw", s_, e_, new))
+                    feat.add("inside"); feat.add("resized-with-tail")
+                    break
+            a = rng.randint(f, l); b = rng.randint(a, l)
+            emit(("pgr", rng.choice([4, 8]), a, b))
         elif step == "readpar":
             a = rng.randint(f, l); b = rng.randint(a, l)
             emit(("epr", a, b, 1))
@@ -729,7 +751,7 @@ def run(ck):
     found = bool(ck.violations)
     for i in range(0 if found else nh):
         ops, feat = gen_history(ck.rng, avoid, big=big and i % 4 == 0,
-                                directed={7: "permute", 3: "parcache"}.get(i % 10))
+                                directed={7: "permute", 3: "parcache", 5: "resize"}.get(i % 10))
         for k_ in ("permuted-sizes", "parent-resized"):
             if k_ in feat:
                 dist.setdefault("directed", {}).setdefault(k_, 0)
